@@ -31,6 +31,8 @@ def main(tier, seed):
             prog = tooltier.backend_program(b, seed, i, avoid_known=False, extra_profile=(dict(opt_borrowed_params=True) if i % 5 == 2 else None))
             if i % 6 == 1 and tooltier.add_zst_error(prog, random.Random("c15z/%s/%s/%s" % (seed, i, b))):
                 tooltier.emit_rust.assign_abi_names(prog)
+            if b == "demo_gen" and i % 2 == 0:
+                tooltier.add_demo_attrs(prog, random.Random("c15demo/%s/%s" % (seed, i)))
             if i % 4 == 1:
                 tooltier.add_docs(prog, random.Random("c15doc/%s/%s/%s" % (seed, i, b)))
             if i % 3 == 0 and tooltier.add_special_methods(prog, random.Random("c15sp/%s/%s/%s" % (seed, i, b)), b):
